@@ -350,7 +350,7 @@ func c05AccessGen(r *Run) {
 		}
 	}
 	// ---- casbin: generated policies × request sequences (1–12, with repeats) on one instance
-	nCasbin := 700
+	nCasbin := 2000
 	if thorough {
 		nCasbin = 12000
 	}
@@ -407,6 +407,41 @@ func c05AccessGen(r *Run) {
 				reqs = append(reqs, c05Triple(r, users, graphs, ops))
 			}
 		}
+		if i%3 == 1 {
+			// conflation family: a granted request A next to requests that differ from it in one
+			// field, or that split the same characters differently between user, graph and class,
+			// asked in both orders and repeated (what a cache with a lossy key would mix up)
+			a := []interface{}{users[1], graphs[0], Pick(r.Rng, ops[:6])}
+			bs := [][]interface{}{
+				{users[0], graphs[1], a[2]},                 // svc<s>etl|prod  vs  svc|etl<s>prod
+				{users[0], a[1], a[2]}, {"etl", a[1], a[2]}, // other user
+				{a[0], graphs[1], a[2]}, {a[0], "pro", a[2]}, // other graph
+				{a[0], a[1], Pick(r.Rng, ops)},               // other class
+				{a[0], graphs[6], ""}, {a[0], "prodre", "ad"}, // prod|read vs prod<s>read|"" vs prodre|ad
+			}
+			if a[2] != "read" {
+				bs = bs[:6]
+			}
+			if r.Rng.Intn(2) == 0 { // grant the other side of the split instead
+				a, bs[0] = bs[0], a
+			}
+			pol = append(pol[:len(pol):len(pol)], []interface{}{a[0], a[1], a[2]})
+			r.Rng.Shuffle(len(pol), func(x, y int) { pol[x], pol[y] = pol[y], pol[x] })
+			b := bs[r.Rng.Intn(len(bs))]
+			if r.Rng.Intn(3) > 0 {
+				b = bs[0]
+			}
+			core := []interface{}{a, b, a, b}
+			if r.Rng.Intn(2) == 0 {
+				core = []interface{}{b, a, b, a}
+			}
+			if len(reqs) > 8 {
+				reqs = reqs[:8]
+			}
+			at := r.Rng.Intn(len(reqs) + 1)
+			reqs = append(append(append([]interface{}{}, reqs[:at]...), core...), reqs[at:]...)
+			wild += "c"
+		}
 		obs := emit(map[string]interface{}{"op": "casbin", "policy": pol, "reqs": reqs})
 		r.Count(fmt.Sprintf("casbin.rows=%d", len(pol)))
 		r.Count(fmt.Sprintf("casbin.len=%d", len(reqs)))
@@ -423,7 +458,7 @@ func c05AccessGen(r *Run) {
 	}
 
 	// ---- BasicAuth / ProxyAuth: sequences of Validate calls with generated metadata
-	nAuth := 300
+	nAuth := 800
 	if thorough {
 		nAuth = 5000
 	}
@@ -474,6 +509,8 @@ func c05AccessGen(r *Run) {
 				return "Basic " + Pick(r.Rng, []string{"QR==", "Og==", "Oh==", "OjoA", "QQ=A", "Q===", "=AAA", "Og=", "YWxpY2U6cHc", "YWxpY2U6cH=="}), "oddb64"
 			case 12:
 				return c05B64(u, p+":"+p), "colonpw"
+			case 13: // the credentials without the scheme, or behind another scheme word of the same length
+				return Pick(r.Rng, []string{"", "Token ", "Basic\t"}) + base64.StdEncoding.EncodeToString([]byte(u+":"+p)), "noprefix"
 			}
 			return c05B64(u, p), "asconfigured"
 		}
@@ -546,7 +583,7 @@ func c05AccessGen(r *Run) {
 	}
 
 	// ---- end to end: real interceptors around the real BasicAuth + CasbinAccess, calls in sequence
-	nE2E, perSeq := 3, 16
+	nE2E, perSeq := 6, 20
 	if thorough {
 		nE2E, perSeq = 12, 24
 	}
